@@ -132,5 +132,5 @@ def run(check, ctx):
     c_aes.aes_tables(check, ctx)
     from . import c_salsa
     c_salsa.salsa_tables(check, ctx, groups=("stream",))
-    check.undecided.append("the block primitives beyond the published vectors (AES/DES/CAST/Blowfish/ARC2/ARC4), Salsa20, GHASH/OCB "
-                           "arithmetic in C; mode geometries outside the enumerated table")
+    check.undecided.append("the block primitives beyond the published vectors and the AES.c / AESNI.c sibling table; "
+                           "mode geometries outside the enumerated tables")
